@@ -131,7 +131,7 @@ func (k *r18client) Instr(s r18state, in ssa.Instruction) (r18state, bool, []r18
 			if deref(a) {
 				// handed on: a callee with a pointer receiver may dereference it
 				if sc := cc.StaticCallee(); sc != nil && sc.Signature.Recv() != nil && len(cc.Args) > 0 && cc.Args[0] == a {
-					k.bad = "is used as method receiver of " + sc.Name() + " at " + pos + " without a nil test"
+					k.bad = "is used as method receiver of " + core.FuncName(sc) + " at " + pos + " without a nil test"
 				} else {
 					k.unexamined = true
 				}
@@ -328,7 +328,7 @@ func R18(p *core.Prog) *core.Result {
 		for _, b := range add.Blocks {
 			for _, in := range b.Instrs {
 				if c, ok := in.(ssa.CallInstruction); ok {
-					if sc := c.Common().StaticCallee(); sc != nil && sc.Name() == "pop" {
+					if sc := c.Common().StaticCallee(); sc != nil && core.FuncName(sc) == "pop" {
 						hasPop = true
 					}
 					if bi, ok := c.Common().Value.(*ssa.Builtin); ok && bi.Name() == "delete" {
@@ -535,7 +535,7 @@ func (k *irClient) okValue(v ssa.Value, depth int) string {
 		if sc == nil {
 			return "comes from a dynamic call"
 		}
-		if sc.Name() == "bytes2Str" || sc.Name() == "Bytes2Str" {
+		if core.FuncName(sc) == "bytes2Str" || core.FuncName(sc) == "Bytes2Str" {
 			return k.okValue(x.Common().Args[0], depth+1)
 		}
 		if core.FuncPkg(sc) == core.FuncPkg(k.fn) && sc.Signature.Results().Len() == 1 {
